@@ -5,23 +5,28 @@ EXTENDS C13, TLCExt
 VARIABLE l
 Tr == JsonDeserialize(IOEnv.TRACE_FILE)        \* the rows this shard examines
 Tab == JsonDeserialize(IOEnv.TABLE_FILE)       \* all rows
-Triggers(e) == {}
-RowFailing(e) ==
+\* clauses failing on some pair of the row; trig = TRUE: only pairs matching the known-finding trigger, FALSE: only the others
+RowFailing(e, trig) ==
   UNION {UNION { LET w == Tab[j] su == e.stems[m] sv == w.stems[m] IN
+                 IF SuffixBoundaryMoves(e.a, w.a, m = 2) # trig THEN {} ELSE
                  PairFailing(e.a, w.a, su, sv, LruSer(CleanStems(su)), LruSer(CleanStems(sv)))
                  \cup Clause(Under(e.a, w.a) /\ ~e.a.ts /\ ~w.a.ts => LPre(e.lru[m], w.lru[m]), "ancestor-implies-string-prefix")
                : m \in 1..2} : j \in 1..Len(Tab)}
-  \cup Clause(e.lru[1] = LruSer(e.stems[1]) /\ e.lru[2] = LruSer(e.stems[2]), "lru-is-serialized-stems")
-FirstBad(e) == LET J == {j \in 1..Len(Tab) : \E m \in 1..2 :
-                           PairFailing(e.a, Tab[j].a, e.stems[m], Tab[j].stems[m], LruSer(CleanStems(e.stems[m])), LruSer(CleanStems(Tab[j].stems[m]))) # {}}
-               IN IF J = {} THEN 0 ELSE Tab[MinOr0(J)].id
+  \cup (IF trig THEN {} ELSE Clause(e.lru[1] = LruSer(e.stems[1]) /\ e.lru[2] = LruSer(e.stems[2]), "lru-is-serialized-stems"))
+FirstBad(e, trig) ==
+  LET J == {j \in 1..Len(Tab) : \E m \in 1..2 :
+              SuffixBoundaryMoves(e.a, Tab[j].a, m = 2) = trig /\
+              PairFailing(e.a, Tab[j].a, e.stems[m], Tab[j].stems[m], LruSer(CleanStems(e.stems[m])), LruSer(CleanStems(Tab[j].stems[m]))) # {}}
+  IN IF J = {} THEN 0 ELSE Tab[MinOr0(J)].id
 TrInit == l = 1 /\ cur = <<>> /\ sa = FALSE /\ phase = 9
 TrNext ==
   /\ l <= Len(Tr)
   /\ LET e == Tr[l]
-         bad == IF e.exc # "" THEN {"raises"} ELSE RowFailing(e)
+         bad == IF e.exc # "" THEN {"raises"} ELSE RowFailing(e, FALSE)
+         badT == IF e.exc # "" THEN {} ELSE RowFailing(e, TRUE) \ bad
      IN /\ cur' = e.a /\ UNCHANGED <<sa, phase>>
-        /\ (IF bad = {} THEN TRUE ELSE PrintT(<<"VERDICT", e.id, bad, Triggers(e), FirstBad(e)>>))
+        /\ (IF bad = {} THEN TRUE ELSE PrintT(<<"VERDICT", e.id, bad, {}, FirstBad(e, FALSE)>>))
+        /\ (IF badT = {} THEN TRUE ELSE PrintT(<<"VERDICT", e.id, badT, {"SuffixBoundaryMoves"}, FirstBad(e, TRUE)>>))
         /\ (IF l < Len(Tr) THEN TRUE ELSE PrintT(<<"TRACE-DONE", l>>))
   /\ l' = l + 1
 TrSpec == TrInit /\ [][TrNext]_<<vars, l>>
